@@ -89,7 +89,7 @@ func c13Run(c *core.Ctx, idx int) {
 		}
 		want := false
 		for _, v := range m.Items {
-			if _, ok := stackage.ConvertStack(v); ok {
+			if _, ok := AsStack(v); ok {
 				want = true
 			}
 		}
@@ -224,7 +224,7 @@ func c13Cond(c *core.Ctx, r *core.Rng, next func() any) {
 			fail("CanNest", fmt.Sprintf("CanNest()=%v while the no-nesting option is %v", got, bit))
 			return
 		}
-		_, want := stackage.ConvertStack(cur)
+		_, want := AsStack(cur)
 		if got := cd.IsNesting(); got != want {
 			fail("IsNesting", fmt.Sprintf("IsNesting()=%v but expression is a stack=%v", got, want))
 			return
